@@ -292,11 +292,11 @@ def own_metric(obs, fit, metric):
     raise ValueError(metric)
 
 
-def own_cal_objective(model, data, outputs, t_end):
-    """outputs: expanded (var, pop, weight, metric); model values beyond t_end (the shortened end year) do not exist"""
+def own_cal_objective(model, data, outputs):
+    """outputs: expanded (var, pop, weight, metric); data outside the simulated period is not compared"""
     tot = 0.0
     tvec = np.asarray(model.t, dtype=float)
-    keep = tvec <= t_end + 1e-9
+    keep = np.ones(tvec.shape, dtype=bool)
     for var, pop_name, w, metric in outputs:
         ts = data.get_ts(var, pop_name)
         if ts is None or not ts.has_time_data:
